@@ -1,4 +1,5 @@
 import Swat4.Lemmas.Crypt
+import Swat4.Lemmas.CryptChecked
 import Swat4.Gen.Facts
 /-!
 # C02 — Encrypted replies are decryptable by the stock GameSpy client cipher
@@ -96,6 +97,57 @@ theorem C02_swat4 (chal : Challenge) (rnd : Rnd) (p out : Bytes)
     (h : encrypt? gameSecret chal rnd p = some out) :
     GOA.refDecrypt Facts.gameEncKey chal.toList out = some p :=
   C02_main gameSecret (by decide) chal rnd p out h
+
+/-- **C02, audited headline (7-bit secrets).**  The GameSpy SDK holds the secret in `char` (signed on the
+platforms the game shipped on), and the reference `GOA` does its arithmetic on unsigned bytes; the two are
+known to coincide only when every secret byte is below 128 (a non-negative `char`), which is also what a
+printable game secret is.  So the claim "the stock client decodes the reply" is made for secrets whose six
+bytes are non-zero and below 128; `C02_main` above is the same statement for all NUL-free 8-bit secrets,
+where `GOA` is the model's own reading of the algorithm rather than the SDK's. -/
+theorem C02_main_ascii (secret : Secret) (hs : ∀ b ∈ secret.toList, b ≠ 0 ∧ b < 128) (chal : Challenge) (rnd : Rnd)
+    (p out : Bytes) (h : encrypt? secret chal rnd p = some out) :
+    GOA.refDecrypt secret.toList chal.toList out = some p :=
+  C02_main secret (fun b hb => (hs b hb).1) chal rnd p out h
+
+/-- **No index panic in the key schedule (C02 "decryptable" presupposes a reply; C06 "never panics").**
+`cryptKey[keypos]` in `shuffle` (state.go) is the cipher's only data-dependent index into the 8-byte key;
+the model reads it as `kget k i = k[i.toNat % 8]`.  With the index *checked* instead (`kgetC`: `none`
+outside `0..7`, propagated through `shuffleIterC` … `newCipherStateC?` like the Go panic would be), the key
+schedule is the model's on every key and succeeds: `keypos < 8` at every read, so the `% 8` never changes
+the index and `newCipherState` cannot panic there.  The per-step facts: the first read is at `keypos = 0`;
+from an in-range `keypos` one pass of the loop body, a whole `shuffle`, and the checked read agree with the
+model and leave `keypos` in range. -/
+theorem keypos_in_range (key : Key) :
+    newCipherStateC? key = newCipherState? key ∧ (newCipherStateC? key).isSome ∧
+    (∀ (i : UInt8), i.toNat < 8 → kgetC key i = some (kget key i)) ∧
+    (∀ (i : UInt8), 8 ≤ i.toNat → kgetC key i = none) ∧
+    (∀ cards limit mask tries rsum (kp : UInt8), kp.toNat < 8 →
+      shuffleIterC cards key limit mask tries rsum kp = some (shuffleIter cards key limit mask tries rsum kp) ∧
+      (shuffleIter cards key limit mask tries rsum kp).2.2.toNat < 8) ∧
+    (∀ cards limit rsum (kp : UInt8) r, kp.toNat < 8 → shuffle cards key limit rsum kp = some r →
+      shuffleC cards key limit rsum kp = some r ∧ r.2.2.toNat < 8) := by
+  refine ⟨newCipherStateC?_eq key, ?_, kgetC_of_lt key, kgetC_of_ge key, ?_, ?_⟩
+  · rw [newCipherStateC?_eq]; exact newCipherState?_isSome key
+  · intro cards limit mask tries rsum kp hk
+    exact ⟨shuffleIterC_eq _ _ _ _ _ _ _ hk, iter_keypos_lt _ _ _ _ _ _ _ hk⟩
+  · intro cards limit rsum kp r hk h
+    exact ⟨by rw [shuffleC_eq _ _ _ _ _ hk]; exact h, shuffle_keypos_lt _ _ _ _ _ hk r h⟩
+
+/-- so `Encrypt` with the checked key schedule is `Encrypt`: it returns the same bytes on every input -/
+theorem encrypt_checked (secret : Secret) (chal : Challenge) (rnd : Rnd) (p : Bytes) :
+    (match newCipherStateC? (cryptKey secret chal rnd) with
+     | none => none
+     | some st => some (header secret chal rnd ++ st.encrypt p)) = encrypt? secret chal rnd p := by
+  unfold encrypt?
+  rw [newCipherStateC?_eq]
+  cases newCipherState? (cryptKey secret chal rnd) <;> rfl
+
+/-- the checked read does fail out of range (the agreement above is not vacuous), on a concrete key -/
+example : kgetC ⟨#[1, 2, 3, 4, 5, 6, 7, 8], rfl⟩ 8 = none ∧ kgetC ⟨#[1, 2, 3, 4, 5, 6, 7, 8], rfl⟩ 7 = some 8 ∧
+    kget ⟨#[1, 2, 3, 4, 5, 6, 7, 8], rfl⟩ 8 = 1 := by decide
+
+/-- the SWAT4 secret satisfies the hypothesis of `C02_main_ascii` -/
+example : ∀ b ∈ gameSecret.toList, b ≠ 0 ∧ b < 128 := by decide
 
 end Swat4.C02
 
